@@ -4,7 +4,11 @@ import (
 	"bytes"
 	"encoding/json"
 	"fmt"
+	"github.com/Oudwins/zog/conf"
+	"github.com/Oudwins/zog/i18n"
 	"github.com/Oudwins/zog/i18n/en"
+	"github.com/Oudwins/zog/i18n/es"
+	"github.com/Oudwins/zog/zconst"
 	"github.com/Oudwins/zog/zhttp"
 	"net/http"
 	"net/url"
@@ -272,8 +276,44 @@ func NewHistoryCase(g *Gen, id int) (*Case, []string, string) {
 			}
 		}()
 	}
+	// ... sometimes the i18n formatter (en, es; default en): the language of a call is the one its own
+	// WithCtxValue("lang", ...) names - or the default - whatever language earlier calls were answered in
+	i18nOn := g.R.Fork(0x118).P(18)
+	langOpt := func(e *execSpec, f *Rng) {
+		if l := Pick(f, []string{"", "en", "es", "es", "fr"}); l != "" {
+			e.opts = append(e.opts, z.WithCtxValue("lang", l))
+		}
+	}
+	if i18nOn {
+		savedFmt := conf.IssueFormatter
+		i18n.SetLanguagesErrsMap(map[string]zconst.LangMap{"en": en.Map, "es": es.Map}, "en")
+		defer func() { conf.IssueFormatter = savedFmt }()
+	}
 	probe := g.execSpec()
 	primed := false
+	if i18nOn && g.R.Fork(0x11f).P(35) {
+		// directed: the call's first issue brings its own message, a later one is left to the language formatter
+		g2 := &Gen{R: g.R.Fork(0x120), P: g.P, nextID: 600}
+		own := "own message"
+		str := func() *Node {
+			return &Node{Kind: KString, Tests: []TestSpec{{Builtin: "min", N: 5, OptMsg: &own}, {Builtin: "contains", S: "zz"}, {Builtin: "max", N: 2}}}
+		}
+		n2 := str()
+		in := strV("abc")
+		if g2.R.P(50) {
+			n2 = &Node{Kind: KSlice, Elem: str()}
+			in = IVal{Kind: "list", L: []IVal{strV("abc"), strV("abcd")}}
+		}
+		probe = g2.execSpecFor(n2)
+		probe.validate = false
+		probe.schema = Build(probe.rec, n2, false)
+		probe.in = &in
+		probe.dest0 = reflect.Zero(probe.t)
+		primed = true
+	}
+	if i18nOn {
+		langOpt(probe, g.R.Fork(0x119))
+	}
 	if f := g.R.Fork(0xc7c8); f.P(12) {
 		// directed: a slice whose Default is run through an item schema with a user test, parsed from nothing
 		g2 := &Gen{R: f, P: g.P, nextID: 500}
@@ -396,6 +436,9 @@ func NewHistoryCase(g *Gen, id int) (*Case, []string, string) {
 	}
 	for i := 0; i < k; i++ {
 		h := g.execSpec()
+		if i18nOn {
+			langOpt(h, g.R.Fork(0x11a+uint64(i)))
+		}
 		if g.R.P(15) {
 			// the documented "top level optional struct": a pointer schema over a request
 			h = g.execSpecFor(&Node{Kind: KPtr, Elem: g.strct(2)})
@@ -511,7 +554,7 @@ func NewHistoryCase(g *Gen, id int) (*Case, []string, string) {
 	c.Dest0 = CoqDval(probe.dest0, n)
 	c.dest0v = probe.dest0
 	c.DataCoq = probeData
-	c.SkipModel = customMap
+	c.SkipModel = customMap || i18nOn // (the model formats with the shipped default language and is not given the call's language)
 	c.Obs = after
 	c.Opts = probe.optTerms
 	c.CtxViews = ctxViews(after.Calls)
